@@ -755,6 +755,24 @@ def run(ctx):
         'abbreviation ignoring case but are not that name). The premise "no element exempted through formatSkip" is '
         'evaluated by the oracle itself: an element is exempted iff its exact name is an entry of the list in force '
         '(read from the words of the abbreviation and the element names of the output, never from the library). '
+        'Line ends (class 3): multi-line values whose lines end in LF, CR LF or a bare CR -- alone, mixed in one value, '
+        'doubled (empty line), leading, trailing -- as text of block / inline elements with and without children, as '
+        'bare text nodes (first / last / only child, top level, repeated), as quoted attribute values (indentation '
+        'check only: the cosmetic comparison of multi-line attribute values is switched off, see '
+        'c12_classes.LINE_BREAKS_IN_ATTRIBUTE_VALUES_COSMETIC) and as the text handed over for wrapping (config `text`: '
+        'one string with line ends, the list of its lines, a list whose items have line ends): a deterministic sweep '
+        'of 11 spellings x 16 hosts + 8 wrap abbreviations x rotating option sets and syntaxes with the cosmetic and '
+        'the depth oracle, and random statements whose multi-line values get every line end re-drawn (40% of them '
+        'with a wrap text). '
+        'Shorthand attributes (class 4): `.c`, `..c` (multiple), `.a..b`, `#i`, `##i`, implicit names, class names that '
+        'are / are not property keys, under the documented jsx / vue presets and under user-given markup.attributes / '
+        'markup.valuePrefix maps with plain and starred keys in every syntax (sweep + random, compared with the model). '
+        'Call sequences (class 5): ONE tree from emmet.markup.parse rendered by emmet.markup.stringify under 2-5 '
+        'configurations that differ in cosmetic options only (abbreviations of every class above x random non-cosmetic '
+        'base incl. user attribute maps; fixed part: shorthand sweep, xsl, snippets, fields, every option set in every '
+        'position): each rendering must have the content of the first rendering and of the one-shot expand under the '
+        'same options.  Implementation and oracle only -- the model is a function of (abbreviation, configuration), a '
+        'tree rendered twice has no counterpart there; likewise the shared-cache sequences. '
         'non-trivial = at least two elements in the output; distinct by (abbreviation, configuration).')
     rng = ctx.rng
     groups = []
